@@ -660,6 +660,10 @@ impl ExecutableContent for SendParameters {
                 // Several pending sends may share one send id, each has its own timer.
                 let timer_id = PLATFORM_ID_COUNTER.fetch_add(1, Ordering::Relaxed);
                 let tg = fsm.schedule(delay_ms, move || {
+                    // A session that has terminated discards its undelivered delayed events.
+                    if !global_clone.lock().unwrap().running {
+                        return;
+                    }
                     if let Some(sid) = &send_id_clone {
                         let mut global = global_clone.lock().unwrap();
                         if let Some(guards) = global.delayed_send.get_mut(sid) {
